@@ -70,7 +70,7 @@ def configs(tier):
     c = [{"kind": "quality", "n": 3}, {"kind": "quality", "n": 4 if tier == "thorough" else 2}]
     for g in ("toy", "GA", "GB"):
         for genome in ("hg19", "hg38"):
-            sts = {"toy": [["1", "1"], ["1", "4"]], "GA": [["1", "1"], ["1", "5"]],
+            sts = {"toy": [["1", "1"], ["1", "4"], ["1", "6"]], "GA": [["1", "1"], ["1", "5"]],
                    "GB": [["1", "1"]]}[g]
             for st in sts:
                 c.append({"kind": "major", "gene": g, "genome": genome, "cn": st})
